@@ -34,7 +34,7 @@ from .. import engine as E
 from .. import harness as H
 from .common import ManualExecutor, Val
 
-CODES = {"V": 0, "E": 1, "F": 2}
+CODES = {"V": 0, "E": 1, "F": 2, "B": 2}
 LTYPES = {"map": 1, "flat_map": 2, "retry": 3, "poll": 4, "throttle": 5, "timeout": 6, "cos": 7}
 
 
@@ -363,7 +363,7 @@ def build(p):
                 if exc is not None:
                     lay = getattr(exc, "layer", -1)
                     E.emit("Final", f=j, s=st, a=1, xs=[s.ident(exc, "val")], k=lay,
-                           b={"TypeError": 1, "LayerError": 2, "UserError": 3, "OtherError": 4}.get(type(exc).__name__, 9))
+                           b={"TypeError": 1, "LayerError": 2, "UserError": 3, "OtherError": 4, "AbortOutcome": 4}.get(type(exc).__name__, 9))
                 else:
                     E.emit("Final", f=j, s=st, a=0, xs=term_of(fut._result, s))
             else:
